@@ -3,7 +3,7 @@ CONSTANT MaxB = 40
 CONSTANT MaxMinP = 5
 CONSTANT MaxGases <- McMaxGases
 CONSTANT MaxBlocks = 3
-CONSTANT GovFull = FALSE
+CONSTANT GovFull = "some"
 CONSTANT EndOrder = "gov-then-fee"
 CONSTANT UnlimitedUsed = 12
 INVARIANT NonNeg
